@@ -148,7 +148,8 @@ Head1 == Head(sendq)
 SendData(r, from, n) ==
     /\ pc = "out" /\ sendq # <<>> /\ r = Head1 /\ rst[r] = "queued"
     /\ from = sentCnt[r] /\ n >= 1 /\ n <= reqLen[r] - from
-    /\ from = (IF wcur[1] = r THEN wcur[2] ELSE 0)          \* whole requests per connection
+    /\ wcur[1] \in {0, r}                                   \* a request starts at a request boundary of THIS connection ...
+    /\ from = (IF wcur[1] = r THEN wcur[2] ELSE 0)          \* ... and goes on where it stopped: whole requests per connection
     /\ sentCnt' = [sentCnt EXCEPT ![r] = IF from + n = reqLen[r] THEN 0 ELSE from + n]
     /\ IF from + n = reqLen[r]
          THEN /\ rst' = [rst EXCEPT ![r] = "sent"] /\ sendq' = Tail(sendq) /\ wcur' = <<0, 0>>
@@ -163,6 +164,20 @@ SendWouldBlock ==      \* postpones work, fails nothing: dispatch returns succes
 SendError(resend) ==
     /\ pc = "out" /\ sendq # <<>> /\ rst[Head1] = "queued"
     /\ pc' = "ret" /\ rc' = "CLOSED" /\ CloseKeep(resend)
+    /\ UNCHANGED <<cno, upq, reqLen, pollin, pollout, inputDone>>
+
+(* send timeout (time itself is the environment's: "the timeout has elapsed" is a choice).  A request of which nothing has been written on   *)
+(* this connection just fails and leaves the queue -- in the output stage, or, while the established connection is not writable, at the end  *)
+(* of the round.  A request that has been written PARTIALLY cannot be taken back: the connection is given up with it.                        *)
+Unwritten(r) == r \in InQ /\ rst[r] = "queued" /\ sentCnt[r] = 0 /\ wcur[1] # r
+Without(q, r) == SelectSeq(q, LAMBDA x : x # r)
+ExpireUnwritten(r) ==
+    /\ pc \in {"out", "ret"} /\ conn = "ready" /\ Unwritten(r) /\ (pc = "out" => r = Head1)
+    /\ rst' = [rst EXCEPT ![r] = "err"] /\ sendq' = Without(sendq, r)
+    /\ UNCHANGED <<pc, conn, cno, peer, stream, consumed, inLen, delivered, upq, reqLen, sentCnt, wcur, pollin, pollout, inputDone, rc>>
+ExpirePartial ==
+    /\ pc = "out" /\ sendq # <<>> /\ rst[Head1] = "queued" /\ sentCnt[Head1] > 0
+    /\ pc' = "ret" /\ rc' = "CLOSED" /\ CloseKeep(FALSE)
     /\ UNCHANGED <<cno, upq, reqLen, pollin, pollout, inputDone>>
 
 DropStale ==           \* a queued handle whose state was changed by the upper layer is just removed (:398-402)
